@@ -191,7 +191,7 @@ impl Module {
         res
     }
 
-    pub(super) fn insert_frame(&mut self, lineage: &Lineage, namespace: &str) {
+    pub(super) fn insert_frame(&mut self, lineage: &Lineage, namespace: &str) -> Result<()> {
         let namespace = self.names.entry(namespace.to_string()).or_default();
         let namespace = namespace.kind.as_module_mut().unwrap();
 
@@ -214,7 +214,11 @@ impl Module {
                     None => {
                         namespace.redirects.push(Ident::from_name(input_name));
 
-                        let input = lineage.find_input_by_name(input_name).unwrap();
+                        let Some(input) = lineage.find_input_by_name(input_name) else {
+                            return Err(Error::new_simple(format!(
+                                "relation `{input_name}` is not accessible in this context"
+                            )));
+                        };
                         let order = lineage.inputs.iter().position(|i| i.id == input.id);
                         let order = order.unwrap();
 
@@ -247,7 +251,12 @@ impl Module {
                         namespace.names.entry(input_name.clone()).or_insert(sub_ns)
                     }
                 };
-                ns = entry.kind.as_module_mut().unwrap()
+                let Some(module) = entry.kind.as_module_mut() else {
+                    return Err(Error::new_simple(format!(
+                        "`{input_name}` names both a column and a relation of this pipeline"
+                    )));
+                };
+                ns = module
             } else {
                 ns = namespace;
             }
@@ -292,6 +301,7 @@ impl Module {
             NS_SELF.to_string(),
             Decl::from(DeclKind::InstanceOf(Ident::from_name(""), Some(lin_ty))),
         );
+        Ok(())
     }
 
     pub(super) fn insert_frame_col(&mut self, namespace: &str, name: String, id: usize) {
